@@ -200,9 +200,7 @@ macro_rules! assert_vfs_no_dir {
             _ => panic_msg!("assert_vfs_no_dir!", "failed to get absolute path", $path),
         };
         if $vfs.exists(&target) {
-            if !$vfs.is_dir(&target) {
-                panic_msg!("assert_vfs_no_dir!", "exists and is not a directory", &target);
-            } else {
+            if $vfs.is_dir(&target) {
                 panic_msg!("assert_vfs_no_dir!", "directory still exists", &target);
             }
         }
@@ -254,9 +252,7 @@ macro_rules! assert_vfs_no_file {
             _ => panic_msg!("assert_vfs_no_file!", "failed to get absolute path", $path),
         };
         if $vfs.exists(&target) {
-            if !$vfs.is_file(&target) {
-                panic_msg!("assert_vfs_no_file!", "exists and is not a file", &target);
-            } else {
+            if $vfs.is_file(&target) {
                 panic_msg!("assert_vfs_no_file!", "file still exists", &target);
             }
         }
@@ -283,7 +279,7 @@ macro_rules! assert_vfs_is_symlink {
         };
         if $vfs.exists(&target) {
             if !$vfs.is_symlink(&target) {
-                panic_msg!("assert_vfs_is_link!", "exists but is not a symlink", &target);
+                panic_msg!("assert_vfs_is_symlink!", "exists but is not a symlink", &target);
             }
         } else {
             panic_msg!("assert_vfs_is_symlink!", "symlink doesn't exist", &target);
